@@ -81,20 +81,20 @@ def main(tier):
     quick = tier == "quick"
     res = core.Result()
     conc = {"conc_injectors": True, "max_inj": 4}
-    res.merge(histrun.run(PROP, b, core.scaled(220 if quick else 4000), conc, ORACLES, salt="c"))
-    res.merge(histrun.run(PROP, b, core.scaled(120 if quick else 2000), dict(conc, p_kill=0.012), ORACLES, salt="k"))
-    res.merge(histrun.run(PROP, b, core.scaled(60 if quick else 1000), dict(conc, p_kill=0.012, variant="lose-all-unsynced"), ORACLES, salt="kl"))
-    res.merge(histrun.run(PROP, b, core.scaled(60 if quick else 1000), dict(conc, gc=True, max_inj=2), ORACLES, salt="gc"))
+    res.merge(histrun.run(PROP, b, core.scaled(600 if quick else 6000), conc, ORACLES, salt="c"))
+    res.merge(histrun.run(PROP, b, core.scaled(360 if quick else 4000), dict(conc, p_kill=0.012), ORACLES, salt="k"))
+    res.merge(histrun.run(PROP, b, core.scaled(180 if quick else 2000), dict(conc, p_kill=0.012, variant="lose-all-unsynced"), ORACLES, salt="kl"))
+    res.merge(histrun.run(PROP, b, core.scaled(200 if quick else 2000), dict(conc, gc=True, max_inj=2), ORACLES, salt="gc"))
     # a backlog queued while the daemon was down for 40 hours: preprocessing races the garbage collector
-    res.merge(histrun.run(PROP, b, core.scaled(10 if quick else 120), dict(conc, gc=True, max_inj=1, backlog=45, conc_list=[10], max_quiescent=4000),
+    res.merge(histrun.run(PROP, b, core.scaled(24 if quick else 200), dict(conc, gc=True, max_inj=1, backlog=45, conc_list=[10], max_quiescent=4000),
                           ORACLES, salt="bl"))
     # sequential histories (deliveries, bounces, restarts) under the same per-step oracle
-    res.merge(histrun.run(PROP, b, core.scaled(120 if quick else 2000), {"p_crash": 0.05}, ORACLES, salt="h"))
+    res.merge(histrun.run(PROP, b, core.scaled(400 if quick else 4000), {"p_crash": 0.05}, ORACLES, salt="h"))
     # crash sweep of a fixed two-message scenario: SIGKILL before every mutating call of qmail-send / qmail-clean
     prof = {"max_msgs": 2, "p_term_restart": 0.0}
-    for idx in histrun.pick_scenarios(PROP, b, "sw", prof, 1 if quick else 3):
+    for idx in histrun.pick_scenarios(PROP, b, "sw", prof, 2 if quick else 5):
         calls, h = histrun.reference_calls(PROP, b, idx, "sw", prof)
-        res.merge(histrun.run_sweep(PROP, b, idx, "sw", prof, ORACLES, histrun.crash_plans(calls, every=2 if quick else 1)))
+        res.merge(histrun.run_sweep(PROP, b, idx, "sw", prof, ORACLES, histrun.crash_plans(calls, every=1)))
     res.merge(core.pmap(second_instance, [(b.dir,)] * (2 if quick else 8)))
     rule = ("histories with 1-4 concurrent qmail-queue runs + qmail-send + qmail-clean: every mutating libc call of every process is "
             "gated and released one at a time by a seeded priority scheduler (distinct_interleavings = distinct sequences of granted "
